@@ -69,6 +69,15 @@ def gen_cases(chk):
                 for r in (1e-3, 1e-2):
                     for _k in range(4 if g == 11 else 1):       # sign changes between slices and rows: both parities, with and without zeros at slice origins
                         cases.append("pw %x %s %s %s %d %x %d" % (ty, dims, dbits(r), rng.choice(("szMode=SZ_BEST_SPEED", "-")), g, rng.getrandbits(16), span))
+    # log path, large ratios: the placeholder of the zeros lies 3e below the smallest log-magnitude, so it leaves the binade of the data's own
+    # range when e is large; zeros among the first (exactly stored) elements of a 1-D array then depend on the range/median handed to the kernel
+    cases += ["pw 1 0,0,0,0,3e8 %s szMode=SZ_BEST_SPEED;accelerate_pw_rel_compression=0 11 f16f 100" % dbits(0.5),
+              "pw 1 0,0,0,0,3e8 %s szMode=SZ_BEST_SPEED;accelerate_pw_rel_compression=0 11 3ff 3" % dbits(0.48)]
+    for ty in (0, 1):
+        for r in (0.48, 0.5, 0.52, 0.9):
+            for _k in range(8 if ty == 1 and r < 0.6 else 2):
+                cases.append("pw %x 0,0,0,0,%x %s %s 11 %x %d" % (ty, rng.choice((1000, 333)), dbits(r), rng.choice(("szMode=SZ_BEST_SPEED;accelerate_pw_rel_compression=0", "accelerate_pw_rel_compression=0")),
+                                                              rng.getrandbits(16), rng.choice((3, 100))))
     n = 1500 if thorough else 260
     for _ in range(n):
         t = rng.choice(SHAPES)
